@@ -29,7 +29,7 @@ BASES = [0, 0o1000, 0o2000, 0o40000, 0o100000, 0o157700, 0o177000, 0o77700, 0o10
 
 def plan(tier, seed):
     n = 16 if tier == "quick" else 48
-    total = 1500 if tier == "quick" else 30000
+    total = 1500 if tier == "quick" else 120000
     return [{"part": i, "parts": n, "seed": seed, "tier": tier, "count": total // n} for i in range(n)]
 
 
